@@ -179,7 +179,7 @@ def check_case(case, acc):
         D["x"] = D["x"] + (np.arange(1500) // 8) * 0.001
         D["z"] = D["z"] + (np.arange(1500) // 8) * 0.002
     probe = base(8).iloc[[6, 1, 4]].reset_index(drop=True) if f not in ENVONLY else base(8)  # caller arrays have 8 entries
-    if "u" in f.replace("up(", ""):  # the observation-level factor: the probe can only hold rows the design has seen
+    if "u" in f.replace("up(", "") or "np.floor(" in f or "np.round(" in f:  # an observation-level / value-derived factor: the probe can only hold rows the design has seen
         probe = base(n).iloc[[n - 1, 1, 3]].reset_index(drop=True)
     acc.calls += 1
     try:
@@ -306,9 +306,17 @@ def check_case(case, acc):
         # a USED label occurring twice with different contents: whatever the library does with such a frame (it refuses it),
         # it does the same for every order of the two columns
         outcomes = []
+        import re
+
+        bare = f
+        while True:  # drop every call with its arguments: what is left names the plain variables
+            nxt = re.sub(r"[A-Za-z_][A-Za-z0-9_.]*\([^()]*\)", "", bare)
+            if nxt == bare:
+                break
+            bare = nxt
         for dup in ("x", "f", "g"):
-            if dup not in f:
-                continue
+            if not re.search(rf"\b{dup}\b", bare):
+                continue  # (inside a call the two columns arrive as one two-column object: what a function makes of that is its own business)
             other = (D[dup] * 2 + 1) if dup == "x" else D[dup].iloc[::-1].reset_index(drop=True)
             base_cols = [c for c in D.columns if c != dup]
             for first, second in ((D[dup], other), (other, D[dup])):
